@@ -44,6 +44,51 @@ func init() {
 		return 2
 	})
 	replayers["snapshot"] = replaySnapshot
+	replayers["path"] = replayPathCmd
+}
+
+func replayPathCmd(prop string, raw json.RawMessage) int {
+	var p explore.PathReplay
+	p.Seed = world.NewState()
+	if err := json.Unmarshal(raw, &p); err != nil {
+		fmt.Fprintln(os.Stderr, err)
+		return 2
+	}
+	w := world.New()
+	w.Lag = p.Lag
+	w.Load(p.Seed)
+	fmt.Printf("seed: %s\nnote: %s\n", p.SeedLabel, p.Note)
+	n := 0
+	for i, l := range p.Transitions {
+		plan, isRec := explore.ParseReconcileLabel(l)
+		if !isRec {
+			if err := world.Apply(w.S, l, p.Lag); err != nil {
+				fmt.Fprintln(os.Stderr, "replay diverged:", err)
+				return 2
+			}
+			fmt.Printf("%2d. %s\n", i+1, l)
+			continue
+		}
+		rec := w.Reconcile(p.Key, plan)
+		fmt.Printf("%2d. %s  -> %s err=%v\n", i+1, l, explore.OutcomeSig(rec), rec.Err)
+		for _, c := range rec.Calls {
+			if c.IsWrite() || c.Fault != "" {
+				fmt.Println("      ", c.String())
+			}
+		}
+		v := oracle.NewView(rec)
+		for id, m := range oracle.Monitors {
+			for _, x := range m(v) {
+				fmt.Println("      MONITOR", id, x.String())
+				n++
+			}
+		}
+	}
+	fmt.Printf("final state:\n%s", w.S.Describe())
+	if n > 0 {
+		return 1
+	}
+	return 0
 }
 
 var replayers = map[string]func(prop string, raw json.RawMessage) int{}
